@@ -1,19 +1,21 @@
 #!/bin/bash
-# Re-runs every seeded change against the quick check of the property it was written against
-# (isolated copy, /repo untouched) and writes seeded/RESULTS.md.
-OUT=/verif/seeded/RESULTS.md
-echo "# Seeded changes vs. the quick tier of the check of their property ($(date -u +%FT%TZ), /verif $(git -C /verif rev-parse --short HEAD))" > $OUT.tmp
-echo "" >> $OUT.tmp
-echo "| seeded change | property | result | first line reported |" >> $OUT.tmp
-echo "|---|---|---|---|" >> $OUT.tmp
-for d in /verif/seeded/*/; do
-  id=$(basename $d)
+# Re-runs seeded changes against the quick check of the property they were written against (isolated copy of /verif
+# pointed at a scratch worktree of /repo; /repo itself is untouched) and re-assembles seeded/RESULTS.md.
+# usage: tools/run_seeded.sh            all of seeded/*/
+#        tools/run_seeded.sh Q1 X       only the ids that start with one of the given prefixes
+# Rows accumulate in seeded/RESULTS.rows (the newest row per id wins). ~3-4 min per change.
+ROWS=/verif/seeded/RESULTS.rows
+touch $ROWS
+list=()
+if [ $# -eq 0 ]; then list=(/verif/seeded/*/); else for p in "$@"; do list+=(/verif/seeded/$p*/); done; fi
+for d in "${list[@]}"; do
   [ -f $d/meta.json ] || continue
+  id=$(basename $d)
   prop=$(python3 -c "import json;print(json.load(open('$d/meta.json'))['breaks_property'])")
   log=$(/verif/tools/try_mutant_isolated.sh $d/patch.diff $prop 2>&1)
-  if echo "$log" | grep -q "^VIOLATION"; then res="caught"; elif grep -q "NOT CAUGHT, deliberately" $d/meta.json; then res="not caught (deliberately, see meta.json)"; else res="MISSED"; echo "$log" | tail -15 > /tmp/run_seeded.$id.missed.log; fi
+  if echo "$log" | grep -q "^VIOLATION"; then res="caught"; elif grep -q "NOT CAUGHT, deliberately" $d/meta.json; then res="not caught (deliberately, see meta.json)"; else res="MISSED"; fi
   first=$(echo "$log" | grep -A1 "^VIOLATION" | sed -n 2p | cut -c1-160 | tr '|' '/')
-  echo "| $id | $prop | $res | $first |" >> $OUT.tmp
+  echo "| $id | $prop | $res | $first |" >> $ROWS
   echo "$id $prop $res"
 done
-mv $OUT.tmp $OUT
+python3 /verif/tools/assemble_results.py $ROWS
